@@ -1,7 +1,7 @@
 CONSTANTS
   MaxReqs = 2
   Stores = {"cookie", "redis"}
-  DomainCfgs = {"none", "dotted"}
+  DomainCfgs = {"none", "dotted", "backend_fail"}
   DeleteKey = TRUE
 INIT Init
 NEXT Next
